@@ -266,6 +266,21 @@ pub fn adversarial_chars() -> Vec<char> {
     v
 }
 
+pub const LONG_LENGTHS: &[usize] = &[254, 255, 256, 257, 65534, 65535, 65536, 65537, 70000];
+pub const LONG_FILLERS: &[&str] = &["identifier", "text", "spaces", "line-annotation-then-lines", "lines", "operators"];
+
+/// a token after `n` characters of one long token / white-space run / many short tokens, or after `n` lines
+pub fn long_input(filler: &str, n: usize) -> String {
+    match filler {
+        "identifier" => format!("{} + b 5", "a".repeat(n)),
+        "text" => format!("\"{}\" + b 5", "x".repeat(n)),
+        "spaces" => format!("a{}+ b 5", " ".repeat(n)),
+        "line-annotation-then-lines" => format!("@@{}\na + b", "c".repeat(n)),
+        "lines" => format!("a{}+ b 5", "\n".repeat(n)),
+        _ => format!("a {}b 5", "+ 1 ".repeat(n / 4)),
+    }
+}
+
 pub const ADVERSARIAL_CONTEXT: &[&str] = &["", "5", "a", "+", " ", "\n", "(", ":a", ".", "<", "@n", "\"", "x`"];
 
 fn random_input(t: &mut Tape) -> String {
@@ -298,7 +313,7 @@ impl Check for C13Check {
     fn rule(&self) -> String {
         format!(
             "Phase strings: every string of length 0..L over a {}-character alphabet with one representative per character class (digit, letter, each operator character, backtick, both quotes, backslash, space, tab, LF, CR, 2-/3-/4-byte characters), \
-             in size order (L=4 quick, 5 thorough); pairs: every ordered pair of token spellings (all operators plus literal/identifier/annotation/whitespace fragments) adjacent and separated by a space or newline; random: strings of up to 40 fragments from a proptest tape; unicode-adversarial: every non-ASCII white-space / zero-width / non-ASCII numeric character and every character of four other Unicode blocks that shares its low byte with an ASCII punctuation character, digit or blank, between every ordered pair of 13 contexts. \
+             in size order (L=4 quick, 5 thorough); pairs: every ordered pair of token spellings (all operators plus literal/identifier/annotation/whitespace fragments) adjacent and separated by a space or newline; random: strings of up to 40 fragments from a proptest tape; long-lines: tokens after 254..70000 characters of one long identifier / text / white-space run / operator sequence, and after that many line breaks (columns and lines around the limits of 8- and 16-bit counters); unicode-adversarial: every non-ASCII white-space / zero-width / non-ASCII numeric character and every character of four other Unicode blocks that shares its low byte with an ASCII punctuation character, digit or blank, between every ordered pair of 13 contexts. \
              Oracle on Ok: concatenation of token texts equals the input, no empty token, (line, column) equal an independent count (skipped when the input contains CR/FF), every token is a valid member of its class by the reference token table, \
              no operator/identifier/number/annotation/whitespace token could have been extended by the next characters, no character that cannot start or continue a token sits in a non-literal token, and widening any blank line with spaces/tabs keeps the same non-whitespace token classes. \
              Err results are always accepted. Non-trivial = lexes to >= 2 tokens of >= 2 classes; distinct = distinct input strings.",
@@ -319,6 +334,7 @@ impl Check for C13Check {
             Phase::exhaustive("strings", space_size(k, l)).with_chunk(16384),
             Phase::exhaustive("pairs", nf * nf * 3).with_chunk(1024),
             Phase::random("random", tier.pick(300_000, 6_000_000), 160).with_min_tape(8).with_chunk(2048),
+            Phase::exhaustive("long-lines", (LONG_LENGTHS.len() * LONG_FILLERS.len()) as u64).with_chunk(2).with_deadline_ms(20_000),
             Phase::exhaustive("unicode-adversarial", (adversarial_chars().len() * ADVERSARIAL_CONTEXT.len() * ADVERSARIAL_CONTEXT.len()) as u64).with_chunk(1024),
         ]
     }
@@ -345,6 +361,13 @@ impl Check for C13Check {
                 check_input(&s, ctx, true);
             }
             (3, Input::Index(i)) => {
+                // tokens far to the right and far down: columns and lines around the limits of 8- and 16-bit counters
+                let n = LONG_LENGTHS[*i as usize / LONG_FILLERS.len()];
+                let s = long_input(LONG_FILLERS[*i as usize % LONG_FILLERS.len()], n);
+                ctx.class("long-line");
+                check_input(&s, ctx, false);
+            }
+            (4, Input::Index(i)) => {
                 let a = adversarial_chars();
                 let n = ADVERSARIAL_CONTEXT.len() as u64;
                 let c = a[(*i / (n * n)) as usize];
